@@ -11,7 +11,6 @@ use super::world::*;
 use crate::common::*;
 use rayon::prelude::*;
 use serde_json::{json, Value};
-use std::collections::HashSet;
 use std::rc::Rc;
 
 #[derive(Clone)]
@@ -58,7 +57,9 @@ impl Explorer<'_> {
     pub fn run(&self, start: &StartState) -> ExploreOut {
         let ctx = self.ctx;
         let root = ExpState { s: start.clone(), path: vec![], key: state_key(start) };
-        let mut seen: HashSet<u128> = HashSet::new();
+        // shared by the workers: a state is kept only by the first transition that reaches it, so a
+        // layer never holds more than its new states
+        let seen = KeySet::new();
         seen.insert(root.key);
         let mut frontier = vec![root.clone()];
         let mut all_states = vec![root.clone()];
@@ -95,14 +96,15 @@ impl Explorer<'_> {
             let fam = format!("{}@depth{}", self.name, depth + 1);
             let hard_cap = std::sync::atomic::AtomicBool::new(false);
             // parallel phase: every (state, op)
-            let results: Vec<(TreeStats, Vec<(ExpState, u64)>)> = frontier
+            let results: Vec<(TreeStats, Vec<ExpState>, u64, u64)> = frontier
                 .par_chunks(4)
                 .map(|chunk| {
                     let mut lst = TreeStats::default();
                     let mut out = vec![];
+                    let (mut nt, mut edges) = (0u64, 0u64);
                     with_world(self.ext, |world| {
                         for es in chunk {
-                            if ctx.elapsed() > 4.0 * ctx.budget_s() {
+                            if ctx.elapsed() > 4.0 * ctx.budget_s() || rss_gb() > 1.5 * rss_cap_gb() {
                                 hard_cap.store(true, std::sync::atomic::Ordering::Relaxed);
                                 break;
                             }
@@ -116,31 +118,35 @@ impl Explorer<'_> {
                                 let mst = resync(world, &real, model.st, &mut lst);
                                 let ns = StartState { name: String::new(), storage: real.final_storage, block: es.s.block.clone(), mstate: mst };
                                 let key = state_key(&ns);
-                                let edge = hash64(&(es.key, oi as u64, key, real.result.is_ok()), 77);
-                                let mut path = es.path.clone();
-                                path.push(oi as u16);
-                                out.push((ExpState { s: ns, path, key }, edge));
+                                edges = edges.wrapping_add(hash64(&(es.key, oi as u64, key, real.result.is_ok()), 77));
+                                nt += 1;
+                                if seen.insert(key) {
+                                    let mut path = es.path.clone();
+                                    path.push(oi as u16);
+                                    out.push(ExpState { s: ns, path, key });
+                                }
                             }
                         }
                     });
-                    (lst, out)
+                    (lst, out, nt, edges)
                 })
                 .collect();
             // sequential phase: deterministic dedup
             let mut next: Vec<ExpState> = vec![];
-            for (lst, out) in results {
+            for (lst, out, nt, edges) in results {
                 stats = stats.merge(lst);
-                for (mut es, edge) in out {
-                    transitions += 1;
-                    edges_digest = edges_digest.wrapping_add(edge);
-                    if seen.insert(es.key) {
-                        es.s.name = format!("{}:path{:?}", self.name, es.path);
-                        next.push(es);
-                    }
+                transitions += nt;
+                edges_digest = edges_digest.wrapping_add(edges);
+                for mut es in out {
+                    es.s.name = format!("{}:path{:?}", self.name, es.path);
+                    next.push(es);
                 }
             }
+            // (which worker reached a state first decides its witness path; order the frontier
+            // by key so that everything downstream is independent of scheduling)
+            next.sort_by_key(|e| e.key);
             if hard_cap.load(std::sync::atomic::Ordering::Relaxed) {
-                caps.push(format!("{}: hard wall-clock cap hit inside depth {}; that layer is incomplete", self.name, depth + 1));
+                caps.push(format!("{}: hard wall-clock / memory cap hit inside depth {}; that layer is incomplete", self.name, depth + 1));
                 break;
             }
             depth += 1;
